@@ -21,6 +21,7 @@ import (
 	authtypes "github.com/cosmos/cosmos-sdk/x/auth/types"
 	vestingtypes "github.com/cosmos/cosmos-sdk/x/auth/vesting/types"
 	banktypes "github.com/cosmos/cosmos-sdk/x/bank/types"
+	govtypes "github.com/cosmos/cosmos-sdk/x/gov/types"
 	stakingtypes "github.com/cosmos/cosmos-sdk/x/staking/types"
 	"github.com/gogo/protobuf/proto"
 	abci "github.com/tendermint/tendermint/abci/types"
@@ -37,7 +38,11 @@ type vtInfo struct {
 
 // vestEnv is an ABCI-driven chain for the vesting monitors.
 type vestEnv struct {
-	n          *chain.Node
+	n *chain.Node
+	// the governance module account acting as a pool owner (its messages are executed the way
+	// an accepted proposal executes them); only used when govOwner is set
+	govKey     chain.Key
+	govOwner   bool
 	owners     []chain.Key
 	strangers  []chain.Key
 	keys       map[string]chain.Key
@@ -181,6 +186,7 @@ func newVestEnvOpts(r *rand.Rand, opt vestOpts) (*vestEnv, error) {
 	vg.AccountVestingPools = append(vg.AccountVestingPools, &vesttypes.AccountVestingPools{Owner: e.owners[0].Bech(), VestingPools: []*vesttypes.VestingPool{mkPool("gp0", true), mkPool("gp1", true)}})
 	vg.AccountVestingPools = append(vg.AccountVestingPools, &vesttypes.AccountVestingPools{Owner: e.owners[1].Bech(), VestingPools: []*vesttypes.VestingPool{mkPool("np0", false)}})
 	accs = append(accs, opt.Extra...)
+	e.govKey = chain.Key{Addr: authtypes.NewModuleAddress(govtypes.ModuleName)}
 	n, err := chain.NewNode(chain.GenesisSpec{Time: gen.Epoch, Accounts: accs, Vesting: vg, Minter: opt.Minter, Distributor: opt.Distributor})
 	if err != nil {
 		return nil, err
@@ -322,6 +328,9 @@ func respellAddresses(msg sdk.Msg) {
 func (e *vestEnv) genOp0(r *rand.Rand, now time.Time) vOp {
 	pools := e.pools()
 	owner := e.owners[r.Intn(len(e.owners))]
+	if e.govOwner && r.Intn(12) == 0 {
+		owner = e.govKey
+	}
 	var fee sdk.Coins
 	if r.Intn(3) == 0 {
 		fee = sdk.NewCoins(sdk.NewCoin(vDenom, sdk.NewInt(int64(1+r.Intn(5000)))))
@@ -505,9 +514,27 @@ func (e *vestEnv) exec(op vOp, now time.Time) (*txOutcome, error) {
 		o.preLocked = coinsMap(e.n.App.BankKeeper.LockedCoins(e.n.Ctx(), actor))
 		o.preSpendable = coinsMap(e.n.App.BankKeeper.SpendableCoins(e.n.Ctx(), actor))
 	}
-	res, err := e.n.DeliverFee(op.signer, op.fee, op.msg)
-	if err != nil {
-		return nil, err
+	var res abci.ResponseDeliverTx
+	if op.signer.Priv == nil {
+		// the governance account signs nothing: its message runs as an accepted proposal does
+		o.op.fee, op.fee = nil, nil
+		gres, evs, gerr := e.n.GovExec(op.msg)
+		res = abci.ResponseDeliverTx{Events: evs}
+		if gres != nil {
+			res.Data, _ = proto.Marshal(&sdk.TxMsgData{MsgResponses: gres.MsgResponses})
+		}
+		if gerr != nil {
+			if p := asPanic(gerr); p != nil {
+				return nil, gerr
+			}
+			res.Code, res.Log = 1, gerr.Error()
+		}
+	} else {
+		var err error
+		res, err = e.n.DeliverFee(op.signer, op.fee, op.msg)
+		if err != nil {
+			return nil, err
+		}
 	}
 	o.res = res
 	o.post = e.n.Snap()
